@@ -28,6 +28,6 @@ Print Assumptions harness_clock_equivalent.
 
 (* the shift is not the identity: a stored session that is live at time 10 is expired once 100 s passed *)
 Example shift_moves_expiry :
-  let s := mkASession 1%N 1%N "" 0%N 0%N 0%N 0%N "" 0%N 0%N 50 0%N "" empty_params [] in
+  let s := mkASession 1%N 1%N "" 0%N 0%N 0%N 0%N "" 0%N 0%N 50 0%N "" empty_params [] [] in
   a_expires (sh_a (-100) s) = -50 /\ geb 10 (a_expires s) = false /\ geb 10 (a_expires (sh_a (-100) s)) = true.
 Proof. repeat split; reflexivity. Qed.
